@@ -95,6 +95,22 @@ func TestVerifC04Dedup(t *testing.T) {
 		}
 		hs = append(hs, hist{name: "fetch-failures", lists: [][]string{ids, ids}, scripts: sc})
 	}
+	// one long-outstanding request is re-listed in every poll (as the App Engine proxy does) while 1100 short ones come and
+	// go, never more than 101 outstanding at a time: the long one stays inside the window because every listing refreshes it
+	{
+		var l [][]string
+		n := 0
+		for p := 0; p < 11; p++ {
+			ids := []string{"h8-long"}
+			for j := 0; j < 100; j++ {
+				n++
+				ids = append(ids, fmt.Sprintf("h8-%d", n))
+			}
+			l = append(l, ids)
+		}
+		l = append(l, []string{"h8-long"})
+		hs = append(hs, hist{name: "relisted-while-1100-pass", lists: l})
+	}
 	// response-upload failures after the backend has already executed the request: transport errors and 5xx,
 	// as many as the upload retries absorb and more, small responses and ones beyond the replay buffer
 	{
